@@ -32,12 +32,14 @@ Definition TY_LOWER : bytes := [119;102;104;58;58;99;111;110;115;58;58;76;111;11
 Definition TY_LOWER2 : bytes := [119;102;104;58;58;99;111;110;115;58;58;76;111;119;101;114;50].      (* wfh::cons::Lower2 *)
 Definition TY_EVEN : bytes := [119;102;104;58;58;99;111;110;115;58;58;69;118;101;110].               (* wfh::cons::Even *)
 Definition TY_NOA : bytes := [119;102;104;58;58;99;111;110;115;58;58;78;111;65].                     (* wfh::cons::NoA *)
+Definition TY_UNI : bytes := [119;102;104;58;58;99;111;110;115;58;58;85;110;105].                     (* wfh::cons::Uni, NAME "größe" *)
 
 Definition tfun (ty v : bytes) : bool :=
   if beqb ty TY_LOWER then forallb is_lower v                 (* accepts "" *)
   else if beqb ty TY_LOWER2 then true                         (* a different function under the name "lower" *)
   else if beqb ty TY_EVEN then Nat.even (length v)            (* not prefix closed *)
   else if beqb ty TY_NOA then negb (match rev v with 97 :: _ => true | _ => false end)  (* does not end in 'a' *)
+  else if beqb ty TY_UNI then Nat.odd (length v)                (* a constraint whose name is not ASCII *)
   else if beqb ty NAME_U8 then u8_ok v
   else false.
 
